@@ -263,6 +263,21 @@ def setup():
 def replay(pid, path):
     """Re-run a recorded failing scenario."""
     tree = C.tree_hash()
+    if path.endswith(".scn") and open(path).read().startswith("cap "):
+        import re
+        d = S.build_harness(tree)
+        txt = open(path).read()
+        m1, m2 = re.search(r"capseed=(\d+)", txt), re.search(r"capcount=(\d+)", txt)
+        out = os.path.join(d, "replay.out")
+        C.sh([os.path.join(d, "schedrun"), "-seed", m1.group(1) if m1 else "1", "-exhaustive", "0", "-random", "0", "-leakfam", "0",
+              "-blockers", "0", "-capacity", m2.group(1) if m2 else "60", "-out", out])
+        bad = [l.strip() for l in open(out) if l.startswith("O %s FAIL" % pid)]
+        print("re-ran the capacity cases: %d failing for %s" % (len(bad), pid))
+        if bad:
+            print(bad[0][:400])
+            print("VIOLATION property=%s replay=%s" % (pid, path))
+            return 1
+        return 0
     if path.endswith(".scn"):
         d = S.build_harness(tree)
         out = os.path.join(d, "replay.out")
